@@ -571,18 +571,31 @@ fn emit_fn<'tcx>(cx: &Cx<'tcx>, did: DefId, out: &mut String) {
     let dk = tcx.def_kind(did);
     let is_fn_like = matches!(
         dk,
-        DefKind::Fn | DefKind::AssocFn | DefKind::Closure | DefKind::Ctor(..) | DefKind::SyntheticCoroutineBody
+        DefKind::Fn | DefKind::AssocFn | DefKind::Closure | DefKind::SyntheticCoroutineBody
     );
-    if !is_fn_like {
+    let is_const_like = matches!(
+        dk,
+        DefKind::Const { .. }
+            | DefKind::AssocConst { .. }
+            | DefKind::Static { .. }
+            | DefKind::AnonConst
+            | DefKind::InlineConst
+    );
+    if !is_fn_like && !is_const_like {
         return;
     }
-    if matches!(dk, DefKind::Ctor(..)) {
+    if !tcx.is_mir_available(did) && !is_const_like {
         return;
     }
-    if !tcx.is_mir_available(did) {
-        return;
-    }
-    let body: &Body<'tcx> = tcx.optimized_mir(did);
+    let body: &Body<'tcx> = if is_const_like {
+        if !did.is_local() || !tcx.hir_body_owner_kind(did.expect_local()).is_fn_or_closure() {
+            tcx.mir_for_ctfe(did)
+        } else {
+            return;
+        }
+    } else {
+        tcx.optimized_mir(did)
+    };
     let env = TypingEnv::post_analysis(tcx, did);
     let fcx = FnCx { cx, body, env };
     let (file, line, col) = cx.loc(body.span);
